@@ -574,7 +574,8 @@ pub fn io_harness(spec: &RunSpec) -> RunOutput {
     };
     let mut ready = Vec::new();
     let mut thash = Fnv::new();
-    let max_steps = 3_000_000usize;
+    // Single-byte chunks through a one-byte pipe cost several scheduler steps per byte.
+    let max_steps = 3_000_000usize + total_bytes * 12;
     let mut harness_error = None;
     loop {
         exec.ready_tasks(&mut ready);
